@@ -9,6 +9,13 @@ HERE = os.path.dirname(os.path.dirname(os.path.abspath(__file__)))
 
 # id -> (level, technique, level text, level note, design ref)
 CHECKS = {
+    "C01": ("exploration",
+            "Hypothesis-generated concurrent histories on a harness-scheduled asyncio run (generated schedule, segmentation, faults, cancellation); oracle = token echo + per-connection wire check by the peer model",
+            "2-4 callers x 1-3 requests over pooled HTTP/1.1 and HTTP/2 connections (direct, proxies) with early closes, faults, a cancellation, "
+            "Connection: close, HTTP/1.0, server-side closes and delayed delivery of server bytes; every response must carry the token of its own "
+            "request and no request head may start on a connection whose previous exchange is unfinished or announced close.",
+            "asyncio only; schedules sampled; the server is well-behaved by construction.",
+            "3 C01"),
     "C02": ("exploration",
             "Hypothesis-generated responses x bounded-exhaustive cut/truncation positions against the server plan's ground truth",
             "Each generated well-formed HTTP/1.1 or HTTP/2 response is delivered whole, byte-at-a-time, split at every single "
@@ -24,6 +31,12 @@ CHECKS = {
             "heads must raise LocalProtocolError with nothing written.",
             "Own decoders are the reference; header-name case on HTTP/1.1 and connection-specific headers are outside the oracle.",
             "3 C03"),
+    "C04": ("exploration",
+            "same generated concurrent histories; invariant monitor evaluated after every simulated network op and at every quiescence",
+            "len(pool.connections) <= N and open streams (minus those of connections that already left the pool and carry no request bytes "
+            "afterwards) <= N, checked at every op boundary of every generated schedule with limits 1-3 and up to 5 callers.",
+            "asyncio only; schedules sampled.",
+            "3 C04"),
     "C05": ("fault_enumeration",
             "exhaustive fault-position x fault-kind and cancellation-point x style enumeration over base scenarios on a harness-scheduled asyncio run, plus Hypothesis-drawn fault/cancel/schedule combinations; oracle = pool state predicates and a behavioural capacity probe",
             "For 17 connection kinds x 4 contexts x 3 request shapes: one run per fault-eligible network op index and documented fault kind, and "
@@ -37,6 +50,13 @@ CHECKS = {
             "the close and none may be open after it.",
             "ownership = reachability through httpcore objects from pool.connections; 'open' means the simulated pipe.",
             "3 C06"),
+    "C07": ("exploration",
+            "same generated concurrent histories; quiescence invariant (no serviceable queued request) + deadlock / livelock detection by the harness scheduler",
+            "At every quiescence of the event loop no queued request may be serviceable; a run that reaches quiescence with unfinished callers and "
+            "no enabled action is a deadlock; a loop that never becomes quiescent is a livelock. Limits 1-2, up to 5 callers, pool timeouts on a "
+            "virtual clock, faults, cancellation, h2-capable pools against h1 servers.",
+            "Liveness is decided as deadlock-freedom in a closed simulated world with a fair fallback scheduler; schedules sampled.",
+            "3 C07"),
     "C10": ("exploration",
             "exhaustive configuration matrix + Hypothesis request histories over near-miss origins; oracle = establishment chain of the pipe that carried each token",
             "All 1080 cells of scheme x port form x proxy mode x http1/http2 x ALPN outcome x sni (sync and async) and sampled sequential "
